@@ -756,6 +756,45 @@ def pair_instances(case, doc):
     return pairs
 
 
+def abandon_then_traverse(case, doc, uidx, eseed):
+    """start traversals and drop them part-way (break out of a for loop, next() once or twice, two traversals interleaved),
+    then traverse completely: the complete traversal must be what it always is. Returns None or (signature, description)."""
+    import random
+    r = random.Random('c12ab/%s' % eseed)
+    hist = []
+    for _ in range(r.randint(1, 3)):
+        kind = r.choice(KINDS)
+        total = len(enum_paths(case, kind))
+        if total == 0:
+            continue
+        k = r.randint(1, total)
+        how = r.choice(['break', 'next', 'interleave'])
+        if how == 'break':
+            for i, _o in enumerate(doc.scene.objects(kind)):
+                if i + 1 >= k:
+                    break
+        elif how == 'next':
+            it = doc.scene.objects(kind)
+            for _i in range(min(k, 2)):
+                next(it, None)
+            del it
+        else:
+            a, b = doc.scene.objects(kind), doc.scene.objects(r.choice(KINDS))
+            for _i in range(k):
+                next(a, None)
+                next(b, None)
+            del a, b
+        hist.append('%s %s after %d of %d' % (how, kind, k, total))
+    if not hist:
+        return 'skip'
+    import gc
+    gc.collect()
+    bad = oracle(case, doc, uidx)
+    if bad:
+        return ('abandoned:' + bad[0], 'after traversals that were dropped part-way (%s) a complete traversal is wrong: %s' % ('; '.join(hist), bad[1]))
+    return None
+
+
 def retraverse(case, doc, uidx, eseed):
     """the scene has been traversed; now edit binding tables of its instances and traverse again: the second traversal
     must reflect the edited tables. Returns None or (signature, description)."""
@@ -997,6 +1036,16 @@ def run(ctx):
         if doc is not None and not bad and nre < ctx.n(300, 6000):
             eseed = ctx.rng.randrange(10 ** 9)
             try:
+                ab = abandon_then_traverse(c, doc, uidx, eseed)
+            except Exception as e:
+                ab = ('abandoned:raises', 'dropping a traversal part-way and traversing again raised %s: %s' % (type(e).__name__, e))
+            if ab != 'skip':
+                ctx.count('abandoned-traversal')
+                if ab and 'c12:' + ab[0] not in reported:
+                    reported.add('c12:' + ab[0])
+                    ctx.violation('c12:' + ab[0], ab[1], dict(kind='abandon', case=c, eseed=eseed), found_input=True)
+                    continue
+            try:
                 rb = retraverse(c, doc, uidx, eseed)
             except Exception as e:
                 rb = ('retraverse:raises', 'editing binding tables and traversing again raised %s: %s' % (type(e).__name__, e))
@@ -1011,6 +1060,12 @@ def run(ctx):
 
 
 def replay(ctx, rep):
+    if rep.get('kind') == 'abandon':
+        doc, uidx, bad = run_case(rep['case'])
+        ab = abandon_then_traverse(rep['case'], doc, uidx, rep['eseed']) if doc is not None and not bad else None
+        if ab and ab != 'skip':
+            print('  ' + ab[1])
+        return bool(ab) and ab != 'skip'
     if rep.get('kind') == 'retraverse':
         doc, uidx, bad = run_case(rep['case'])
         rb = retraverse(rep['case'], doc, uidx, rep['eseed']) if doc is not None and not bad else None
